@@ -1,6 +1,8 @@
 import ShkModel.Driver.C01
 import ShkModel.Driver.C18
 import ShkModel.Driver.C19
+import ShkModel.Driver.C12
+import ShkModel.Driver.C13
 import ShkModel.Driver.C16
 import ShkModel.Driver.C17
 import ShkModel.Driver.C06
@@ -21,6 +23,8 @@ def dispatch (line : String) : String :=
   | "C01" :: rest => C01.handle rest
   | "C18" :: rest => C18.handle rest
   | "C19" :: rest => C19.handle rest
+  | "C12" :: rest => C12.handle rest
+  | "C13" :: rest => C13.handle rest
   | "C16" :: rest => C16.handle rest
   | "C17" :: rest => C17.handle rest
   | "C06" :: rest => C06.handle rest
